@@ -62,7 +62,11 @@ func c13Valid(c c13Case) bool {
 		// while a lookup is pending the other calls legitimately keep the batch waiting -
 		// unless every call of the batch carries the context that ends
 		switch c.State {
-		case "zk", "meta", "probe", "dialrefused", "backoff", "busy", "nsremeta":
+		case "busy":
+			// (... or the others are for another, healthy server: they are answered, and nothing but the calls that
+			// are given up keeps the batch waiting for room in the stalled server's queue)
+			// (c13Fill arranges exactly that: Split = !AllOwn)
+		case "zk", "meta", "probe", "dialrefused", "backoff", "nsremeta":
 			if !c.AllOwn {
 				return false
 			}
@@ -637,8 +641,9 @@ func c13Fill(t *rapid.T, c *c13Case) {
 	if c.State == "busy" {
 		c.Queue = 2
 		c.FlushMS = 0
-		// (everything on the stalled server)
-		c.Split = false
+		// (everything on the stalled server - or, for single calls of a batch that are given up while the batch's
+		// own context lives on, the affected calls there and the others on the healthy one)
+		c.Split = c.Which == "callinbatch" && !c.AllOwn
 	}
 }
 
